@@ -73,8 +73,20 @@ class Numeric:
                     is_ok = set(rv[2]) == {0}
                 if not is_ok:
                     continue
+                if p.get('ctx'):
+                    same_case = True
+                    for cv, (cl, ch) in p['ctx'].items():
+                        sl, sh = D.get_iv(st, cv)
+                        if sl < cl or sh > ch:
+                            same_case = False
+                    if not same_case:
+                        continue
                 l, h = D.get_iv(st, p['vid'])
                 ok2 = p['min'][0] <= l and h <= p['max'][1]
+                if p.get('side') == 'hi':
+                    ok2 = h <= p['max'][1]
+                elif p.get('side') == 'lo':
+                    ok2 = p['min'][0] <= l
                 I.record(p['o'], ok2, st, f'O2: a value in [{l}, {h}] is accepted by {fn} but the message states [{p["min"][0]}, {p["max"][1]}]')
         self.pending_o2 = keep
 
@@ -135,10 +147,30 @@ class Numeric:
             if sv is not None and sv.lits is not None and len(sv.lits) == 1:
                 conditional = False
         info['conditional'] = conditional
-        if not conditional and val[1] not in D.CONSTVAL and cfn is not None:
+        if val[1] not in D.CONSTVAL and cfn is not None:
             key = (cfn, cdepth, val[1], o.key)
-            if not any(p['k'] == key for p in self.pending_o2):
-                self.pending_o2.append({'k': key, 'fn': cfn, 'depth': cdepth, 'vid': val[1], 'min': (l1, h1), 'max': (l2, h2), 'o': o})
+            ctxiv = None
+            if conditional:
+                # a range that holds "because <other argument> is ...": O2 applies to the Ok results of this invocation that
+                # lie in the same case, i.e. whose other integer arguments are inside the values they have on this path
+                ctxiv = {}
+                fids = [f for f, fr in st.frames.items() if f != 0 and fr.get(-1) == cfn]
+                body = I.bodies.get(cfn)
+                if fids and body is not None:
+                    fr = st.frames[max(fids)]
+                    for l in range(1, body['argc'] + 1):
+                        a = fr.get(l)
+                        if a is not None and a[0] == 'i' and a[1] != val[1]:
+                            ctxiv[a[1]] = D.get_iv(st, a[1])
+                if not ctxiv:
+                    ctxiv = None
+            if (not conditional or ctxiv) and not any(p['k'] == key for p in self.pending_o2):
+                side = None
+                if conditional:
+                    # the guard of a conditional site tests one end of the range (the other end belongs to another guard,
+                    # possibly in the caller): O2 is applied to the end that this guard rejects
+                    side = 'hi' if vl > h2 else 'lo' if vh < l1 else None
+                self.pending_o2.append({'k': key, 'fn': cfn, 'depth': cdepth, 'vid': val[1], 'min': (l1, h1), 'max': (l2, h2), 'o': o, 'ctx': ctxiv, 'side': side})
 
     def _lit(self, v):
         if v[0] == 'str' and v[1].lits:
